@@ -1,6 +1,7 @@
 package checks
 
 import (
+	"crypto/md5"
 	"encoding/json"
 	"fmt"
 	"strings"
@@ -18,6 +19,9 @@ type gcsCase struct {
 	Ops   []GOp  `json:"ops"`
 	// CheckAll: compare the whole state after every op (otherwise only after the last)
 	Forms bool `json:"forms,omitempty"`
+	// CheckFrom: when every step is checked (replays), the requests before this index are executed without the
+	// state comparison (fixtures of a thousand objects: comparing the whole bucket after each upload is quadratic)
+	CheckFrom int `json:"check_from,omitempty"`
 }
 
 // c02NamesMem: folder placeholders (names that end in the separator), which only the memory store can hold.
@@ -74,11 +78,12 @@ func runGCS(c *fw.Ctx, gc gcsCase, checkAll bool, tag func(*GOp) string) (string
 	defer w.Close()
 	for i := range gc.Ops {
 		last := i == len(gc.Ops)-1
-		m, cl := w.Step(&gc.Ops[i], checkAll || last)
+		check := (checkAll && i >= gc.CheckFrom) || last
+		m, cl := w.Step(&gc.Ops[i], check)
 		if m != "" {
 			return m, fmt.Sprintf("%s:%s", cl, tag(&gc.Ops[i])), 0
 		}
-		if gc.Forms && (checkAll || last) {
+		if gc.Forms && check {
 			for b := range w.model.Buckets {
 				for _, n := range w.model.Names(b) {
 					for _, f := range []string{"download", "public"} {
@@ -240,7 +245,7 @@ func runC02(c *fw.Ctx) {
 		for _, name := range names {
 			for _, proto := range []string{"media", "multipart", "resumable"} {
 				for pi, data := range payloads {
-					for md := 0; md < 4; md++ {
+					for md := 0; md < 6; md++ {
 						for gzi := 0; gzi < 3; gzi++ { // 0 plain, 1 gzip body, 2 gzip body of several members
 							item++
 							if !c.Mine(item) {
@@ -261,6 +266,10 @@ func runC02(c *fw.Ctx) {
 								meta.Md5Hash = gcs.MD5b64(append([]byte("z"), data...))
 							case 3:
 								meta.Md5Hash = "***not-base64***"
+							case 4:
+								meta.Md5Hash = "AAAA" // valid base64, but of 3 bytes: not the digest of anything
+							case 5:
+								meta.Md5Hash = fmt.Sprintf("%x", md5.Sum(data)) // the hex form of the right digest: valid base64 of 24 bytes
 							}
 							if proto == "media" && md != 0 {
 								continue // a media upload has no place for a declared MD5
@@ -273,13 +282,23 @@ func runC02(c *fw.Ctx) {
 								}
 								up.GzN = 3
 							}
+							ups := []GOp{up}
+							if md == 0 && gzi == 0 && proto != "media" {
+								// the secondary carrier of the content type (media part / X-Upload-Content-Type) disagrees
+								// with the object resource: the resource wins
+								alt := up
+								alt.AltType = "application/x-the-part-says-otherwise"
+								ups = append(ups, alt)
+							}
 							// onto an absent object, and onto an existing one (a rejected upload must leave it intact)
-							for _, pre := range [][]GOp{nil, {prev}} {
-								ops := append(append(append([]GOp(nil), setup...), pre...), up)
-								if ok, _ := tryGCS(c, "C02", gcsCase{Store: store, Ops: ops, Forms: true}, c02Tag); ok {
-									c.Outcome(fmt.Sprintf("%s:p%d:md%d", proto, pi, md))
-									if item%211 == 0 {
-										c.Sample(map[string]interface{}{"store": store, "program": GOpsString(ops[len(setup):])})
+							for _, up := range ups {
+								for _, pre := range [][]GOp{nil, {prev}} {
+									ops := append(append(append([]GOp(nil), setup...), pre...), up)
+									if ok, _ := tryGCS(c, "C02", gcsCase{Store: store, Ops: ops, Forms: true}, c02Tag); ok {
+										c.Outcome(fmt.Sprintf("%s:p%d:md%d", proto, pi, md))
+										if item%211 == 0 {
+											c.Sample(map[string]interface{}{"store": store, "program": GOpsString(ops[len(setup):])})
+										}
 									}
 								}
 							}
